@@ -47,7 +47,10 @@ def variants(rng, toks, cap):
     n = len(toks)
     # comments at every token boundary
     for i in range(n + 1):
-        for cm in (b"/*c*/", b"//c\n", b"/**/", b"/***/", b"/* * / ** */", b"/*a**/", b"/****/", b"// /* \n", b"/*//*/"):
+        for cm in (b"/*c*/", b"//c\n", b"/**/", b"/***/", b"/* * / ** */", b"/*a**/", b"/****/", b"// /* \n", b"/*//*/",
+                   # bytes inside a comment that end or open something elsewhere: CR (a line comment ends at LF only), quotes,
+                   # brackets, commas (round-7 seed C16-12)
+                   b"//a\rb\n", b"// ] \r ,1\n", b"//\r\n", b"/*\r*/", b"//\"\n", b"/*]}*/", b"//\t'\x7f\n"):
             out.append(("comment", True, tokgen.ttext(toks[:i]) + cm + tokgen.ttext(toks[i:]), None))
     for i, (k, b) in enumerate(toks):
         pre, post = tokgen.ttext(toks[:i]), tokgen.ttext(toks[i + 1:])
